@@ -35,3 +35,24 @@ def rhs_shapes(n_in, batch, kinds):
         elif k == "bcast":
             out[k] = (2, 1) + (n_in, 1) if not batch else (2,) + tuple(1 for _ in batch) + (n_in, 1)
     return out
+
+
+import re
+import traceback
+
+_UNSUPPORTED_RE = re.compile(r"not (yet )?(supported|implemented)|unsupported|does not support|do not support|doesn't support|cannot (be )?index|"
+                             r"can only|currently|only (supports?|works|implemented|defined)|must be|should be|expected", re.I)
+
+
+def explicit_unsupported(e):
+    """an explicit not-supported error: NotImplementedError, or a RuntimeError / ValueError / TypeError raised by a `raise`
+    statement inside linear_operator whose message states the limitation"""
+    if isinstance(e, NotImplementedError):
+        return True
+    if isinstance(e, (RuntimeError, ValueError, TypeError)):
+        tb = traceback.extract_tb(e.__traceback__)
+        last = tb[-1] if tb else None
+        if last is not None and last.filename.startswith("/repo/linear_operator"):
+            # the frame's current line is inside a multi-line `raise X(...)` statement or the raise itself
+            return bool(_UNSUPPORTED_RE.search(str(e)))
+    return False
